@@ -867,14 +867,13 @@ Section EnumSound.
     Lemma path_all_sound len : forall caps a b,
       In b (path_all s rd len caps a) -> conv s rcaps mem caps a b.
     Proof.
-      induction len as [|l IH]; intros caps a b; cbn [path_all]; rewrite in_app_iff.
-      - intros [H|[]]. destruct (in_capsb caps (fa_as a)) eqn:E; [|destruct H].
-        destruct H as [<-|[]]. apply conv_done. now apply in_capsb_spec.
-      - intros [H|H].
-        + destruct (in_capsb caps (fa_as a)) eqn:E; [|destruct H].
-          destruct H as [<-|[]]. apply conv_done. now apply in_capsb_spec.
-        + rewrite in_flat_map in H. destruct H as [c [Hc Hb]].
-          eapply conv_step; [apply step_all_sound; exact Hc|now apply IH].
+      induction len as [|l IH]; intros caps a b; cbn [path_all];
+        destruct (in_capsb caps (fa_as a)) eqn:E.
+      - intros [<-|[]]. apply conv_done. now apply in_capsb_spec.
+      - intros [].
+      - intros [<-|[]]. apply conv_done. now apply in_capsb_spec.
+      - rewrite in_flat_map. intros [c [Hc Hb]].
+        eapply conv_step; [apply step_all_sound; exact Hc|now apply IH].
     Qed.
   End WithRd.
 
